@@ -324,6 +324,65 @@ def run(ctx):
     for target in ('receiver', 'query'):
       recs.append(record(e13, [('global', 'othermod')], b'cverif_canary\nfire\n)R.', target,
                          'carbon.conf USE_INSECURE_UNPICKLER = %r' % spelling))
+  # a connection whose connectionMade() failed half-way (Twisted logs that and keeps delivering the socket's data):
+  # here the keep-alive socket option is refused by the kernel.  Whatever the receiver does with the frames that
+  # follow, it must not unpickle them with anything but the restricted unpickler.
+  import socket as _socket
+
+  class RefusingSocket(object):
+    type = _socket.SOCK_STREAM
+
+    def setsockopt(self, *a):
+      raise OSError(22, 'Invalid argument')
+
+  class KeepAliveTransport(StringTransport):
+    def getHandle(self):
+      return RefusingSocket()
+
+    def setTcpKeepAlive(self, v):
+      pass
+  e13.wm.settings['TCP_KEEPALIVE'] = True
+  e13.wm.settings['TCP_KEEPIDLE'] = 0
+  for cls_name in ('MetricPickleReceiver', 'CacheManagementHandler'):
+    for payload in (b'cverif_canary\nfire\n)R.', pickle.dumps([('a', (1.0, 2.0))], protocol=2)[:-1] + b'cverif_canary\nfire\n)R0.'):
+      r = getattr(e13.wm.protocols, cls_name)()
+      del e13.canary.CALLS[:]
+      try:
+        r.makeConnection(KeepAliveTransport())
+      except Exception:
+        pass
+      try:
+        r.dataReceived(struct.pack('!L', len(payload)) + payload)
+      except Exception:
+        pass
+      ctx.evaluations += 1
+      if e13.canary.CALLS:
+        ctx.violation(WHAT['global-called'] + ' [%s whose connectionMade() failed (socket option refused) before the unpickler was chosen]' % cls_name,
+                      dict(receiver=cls_name, payload=repr(payload), calls=[c[0] for c in e13.canary.CALLS]), signature='global-called')
+      try:
+        e13.wm.state.connectedMetricReceiverProtocols.discard(r)
+      except Exception:
+        pass
+  e13.wm.settings['TCP_KEEPALIVE'] = False
+  del e13.canary.CALLS[:]
+  # instance sections ([cache:b]) override the program section: an instance that switches the insecure unpickler
+  # OFF must get the safe one, whatever spelling of "off" it uses
+  for base_val, inst_val in (('True', 'False'), ('True', 'no'), ('True', '0'), ('True', 'off'), ('on', 'False'), ('False', None)):
+    cpath = os.path.join(ctx.scratch, 'carbon-unpickler-inst.conf')
+    with open(cpath, 'w') as fh:
+      fh.write('[cache]\nUSE_INSECURE_UNPICKLER = %s\n[cache:b]\nLOG_UPDATES = False\n' % base_val)
+      if inst_val is not None:
+        fh.write('USE_INSECURE_UNPICKLER = %s\n' % inst_val)
+    st = Settings()
+    try:
+      st.readFrom(cpath, 'cache')
+      st.readFrom(cpath, 'cache:b')
+    except Exception:
+      continue
+    e13.wm.settings['USE_INSECURE_UNPICKLER'] = st['USE_INSECURE_UNPICKLER']
+    for target in ('receiver', 'query'):
+      recs.append(record(e13, [('global', 'othermod')], b'cverif_canary\nfire\n)R.', target,
+                         'carbon.conf [cache] USE_INSECURE_UNPICKLER = %s, [cache:b] USE_INSECURE_UNPICKLER = %s (instance b)' % (base_val, inst_val)))
   e13.wm.settings['USE_INSECURE_UNPICKLER'] = False
   # C. exhaustive lookup sweep over loaded modules
   pairs = []
